@@ -44,11 +44,15 @@ var (
 	upsOnce sync.Once
 	upsList []*upstream
 	upsErr  error
+	// one token per query an upstream has finished answering (all its datagrams are on their way); created outside
+	// every bubble, so waiting for it inside one never lets virtual time pass
+	answered chan struct{}
 )
 
 // startUpstreams opens max upstream sockets once per process (called outside any bubble).
 func startUpstreams(max int) error {
 	upsOnce.Do(func() {
+		answered = make(chan struct{}, 1024)
 		for i := 1; i <= max; i++ {
 			c, err := net.ListenUDP("udp4", &net.UDPAddr{IP: net.IPv4(127, 0, 0, 1)})
 			if err != nil {
@@ -177,5 +181,14 @@ func (u *upstream) serve() {
 		for _, b := range out {
 			u.conn.WriteToUDP(b, addr)
 		}
+		answered <- struct{}{}
+	}
+}
+
+// settle returns once every query counted so far has been answered completely, so that no datagram of this call can
+// still be under way when the next call opens its socket.
+func settle(n int) {
+	for i := 0; i < n; i++ {
+		<-answered
 	}
 }
